@@ -196,7 +196,7 @@ int main (void)
       tok = strsep (&p, " ");
       if (strcmp (tok, "G") == 0) continue;
       if (tok[0] != 'o' || strcmp (tok, "obs") == 0 || 1) { snprintf (opstr, sizeof opstr, "op=%ld %s %.60s", n_ops, tok, p ? p : ""); snprintf (yv_where, sizeof yv_where, "cont g=%s %s", bid, opstr); }
-      if (strcmp (tok, "B") == 0) { snprintf (bid, sizeof bid, "%s", p); n_beh++; lib0 = yv_lib_live; nuniv = 0; alarm (3); /* a lookup that never returns is an event, not a hang of the check */ }
+      if (strcmp (tok, "B") == 0) { snprintf (bid, sizeof bid, "%s", p); n_beh++; lib0 = yv_lib_live; nuniv = 0; alarm (10); /* a lookup that never returns is an event, not a hang of the check */ }
       else if (strcmp (tok, "H") == 0) { int k = atoi (strsep (&p, " ")); hashval[k] = (unsigned) atol (p); if (k > nuniv) nuniv = k; }
       else if (strcmp (tok, "x") == 0) { end_behaviour (lib0); alarm (0); }
       /* ---- hash ---- */
